@@ -21,17 +21,17 @@ Proof. exact rle_get_run_count_safe. Qed.
 Print Assumptions C14_rle_get_run_count_safe.
 
 Theorem C14_dict_decode_safe : forall z n,
-  dict_decode z n <> DFuel /\
-  Forall (fun a => a <= 8388608 + 8 * n) (dec_allocs (dict_decode z n)) /\
-  N.of_nat (length (dec_stores (dict_decode z n))) <= n /\
+  dict_decode z n <> DictFuel /\
+  Forall (fun a => a <= 8388608 + 8 * n) (dict_dec_allocs (dict_decode z n)) /\
+  N.of_nat (length (dict_dec_stores (dict_decode z n))) <= n /\
   (forall z', firstn (N.to_nat n) z = firstn (N.to_nat n) z' -> dict_decode z n = dict_decode z' n).
 Proof. exact dict_decode_safe. Qed.
 Print Assumptions C14_dict_decode_safe.
 
 Theorem C14_dict_decode_into_safe : forall z n cap,
-  dict_decode_into z n cap <> DFuel /\
-  Forall (fun a => a <= 8388608) (dec_allocs (dict_decode_into z n cap)) /\
-  N.of_nat (length (dec_stores (dict_decode_into z n cap))) <= cap /\
+  dict_decode_into z n cap <> DictFuel /\
+  Forall (fun a => a <= 8388608) (dict_dec_allocs (dict_decode_into z n cap)) /\
+  N.of_nat (length (dict_dec_stores (dict_decode_into z n cap))) <= cap /\
   (forall z', firstn (N.to_nat n) z = firstn (N.to_nat n) z' ->
               dict_decode_into z n cap = dict_decode_into z' n cap).
 Proof. exact dict_decode_into_safe. Qed.
@@ -45,8 +45,8 @@ Print Assumptions C14_tagged_get_local.
 
 (* non-vacuity: the F12 / F15 witnesses and the wrapping count *)
 Example C14_example :
-  dict_decode [255] 1 = DNull [] /\ dict_decode_into [255] 1 4 = DNull [] /\
+  dict_decode [255] 1 = DictNull [] /\ dict_decode_into [255] 1 4 = DictNull [] /\
   rle_get_run_count [1; 255] 2 = Some 0 /\
   rle_get_run_count [1; 255; 255; 255; 255; 255; 255; 255; 255; 255; 7] 10 = Some 1 /\
-  dict_decode ([1; 7] ++ [255; 128; 0; 0; 0; 0; 0; 0; 0] ++ [0; 0]) 13 = DNull [8].
+  dict_decode ([1; 7] ++ [255; 128; 0; 0; 0; 0; 0; 0; 0] ++ [0; 0]) 13 = DictNull [8].
 Proof. vm_compute. repeat split; reflexivity. Qed.
